@@ -381,6 +381,106 @@ func (a Fp2) Sqrt() (Fp2, bool) {
 	return Fp2{}, false
 }
 
+// Exp is a^e for e >= 0.
+func (a Fp2) Exp(e *big.Int) Fp2 {
+	r := NewFp2(big.NewInt(1), big.NewInt(0))
+	for i := e.BitLen() - 1; i >= 0; i-- {
+		r = r.Mul(r)
+		if e.Bit(i) == 1 {
+			r = r.Mul(a)
+		}
+	}
+	return r
+}
+
+// cubeRootSetup: for a field with q elements, q - 1 = 3^s * t with 3 not dividing t.
+// Both p - 1 and p^2 - 1 have s = 2 for this curve, so the 3-Sylow subgroup has 9
+// elements and the final correction of the Tonelli-Shanks style root is found by trying them.
+func cubeRootSetup(q *big.Int) (t, third, e *big.Int, sylow int) {
+	t = new(big.Int).Sub(q, big.NewInt(1))
+	third = new(big.Int).Div(t, big.NewInt(3))
+	sylow = 1
+	for new(big.Int).Mod(t, big.NewInt(3)).Sign() == 0 {
+		t.Div(t, big.NewInt(3))
+		sylow *= 3
+	}
+	// alpha in {1,2} with 3 | alpha*t + 1
+	alpha := int64(1)
+	if new(big.Int).Mod(new(big.Int).Add(t, big.NewInt(1)), big.NewInt(3)).Sign() != 0 {
+		alpha = 2
+	}
+	e = new(big.Int).Mul(t, big.NewInt(alpha))
+	e.Add(e, big.NewInt(1))
+	e.Div(e, big.NewInt(3))
+	return
+}
+
+// CubeRootsModP returns all cube roots of a in F_p (none, or three for a != 0).
+func CubeRootsModP(a *big.Int) []*big.Int {
+	a = new(big.Int).Mod(a, BNP)
+	if a.Sign() == 0 {
+		return []*big.Int{big.NewInt(0)}
+	}
+	t, third, e, sylow := cubeRootSetup(BNP)
+	if new(big.Int).Exp(a, third, BNP).Cmp(big.NewInt(1)) != 0 {
+		return nil
+	}
+	var g *big.Int // generator of the 3-Sylow subgroup
+	for c := int64(2); ; c++ {
+		cc := big.NewInt(c)
+		if new(big.Int).Exp(cc, third, BNP).Cmp(big.NewInt(1)) != 0 {
+			g = new(big.Int).Exp(cc, t, BNP)
+			break
+		}
+	}
+	x0 := new(big.Int).Exp(a, e, BNP)
+	var out []*big.Int
+	z := big.NewInt(1)
+	for i := 0; i < sylow; i++ {
+		x := modP(new(big.Int).Mul(x0, z))
+		if new(big.Int).Exp(x, big.NewInt(3), BNP).Cmp(a) == 0 {
+			out = append(out, x)
+		}
+		z = modP(new(big.Int).Mul(z, g))
+	}
+	return out
+}
+
+// CubeRoots returns all cube roots of a in F_p^2.
+func (a Fp2) CubeRoots() []Fp2 {
+	if a.IsZero() {
+		return []Fp2{a}
+	}
+	q := new(big.Int).Mul(BNP, BNP)
+	t, third, e, sylow := cubeRootSetup(q)
+	one := NewFp2(big.NewInt(1), big.NewInt(0))
+	if !a.Exp(third).Equal(one) {
+		return nil
+	}
+	var g Fp2
+	for c := int64(1); ; c++ {
+		cc := NewFp2(big.NewInt(c), big.NewInt(1))
+		if !cc.Exp(third).Equal(one) {
+			g = cc.Exp(t)
+			break
+		}
+	}
+	x0 := a.Exp(e)
+	var out []Fp2
+	z := one
+	for i := 0; i < sylow; i++ {
+		x := x0.Mul(z)
+		if x.Mul(x).Mul(x).Equal(a) {
+			out = append(out, x)
+		}
+		z = z.Mul(g)
+	}
+	return out
+}
+
+// TwistB returns 3/xi, the constant of the twist equation.
+func TwistB() Fp2 { return bnTwistB }
+
 // BNSelfTest checks the parameters against the relations stated in the paper.
 func BNSelfTest() error {
 	if !BNP.ProbablyPrime(32) || !BNN.ProbablyPrime(32) {
@@ -439,6 +539,33 @@ func BNSelfTest() error {
 		r, ok := sq.Sqrt()
 		if !ok || !r.Mul(r).Equal(sq) {
 			return fmt.Errorf("bn model: Fp2 sqrt of (%d+%di)^2", c[0], c[1])
+		}
+	}
+	for _, c := range []int64{2, 5, 1234567} {
+		cube := new(big.Int).Exp(big.NewInt(c), big.NewInt(3), BNP)
+		roots := CubeRootsModP(cube)
+		found := false
+		for _, r := range roots {
+			if new(big.Int).Exp(r, big.NewInt(3), BNP).Cmp(cube) != 0 {
+				return fmt.Errorf("bn model: cube root of %d^3 wrong", c)
+			}
+			found = found || r.Cmp(big.NewInt(c)) == 0
+		}
+		if len(roots) != 3 || !found {
+			return fmt.Errorf("bn model: cube roots of %d^3: %d roots, original found=%v", c, len(roots), found)
+		}
+		v := NewFp2(big.NewInt(c), big.NewInt(c+11))
+		cu := v.Mul(v).Mul(v)
+		r2 := cu.CubeRoots()
+		found = false
+		for _, r := range r2 {
+			if !r.Mul(r).Mul(r).Equal(cu) {
+				return fmt.Errorf("bn model: Fp2 cube root wrong")
+			}
+			found = found || r.Equal(v)
+		}
+		if len(r2) != 3 || !found {
+			return fmt.Errorf("bn model: Fp2 cube roots: %d roots, original found=%v", len(r2), found)
 		}
 	}
 	i := Fp2{Re: big.NewInt(0), Im: big.NewInt(1)}
